@@ -72,12 +72,26 @@ PoolMixed ==
                          TUx([NoTD EXCEPT !.id = Some(2064650), !.nyct = Nyct(None, Some(FALSE), Some(1))], None, <<StuN(Some(19), Some(5), None, None)>>),
                          VPx(None, Some(VDid(5))),                       \* a plain vehicle right after a trip the stale filter drops
                          TUx([NoTD EXCEPT !.id = Some(1070000), !.route = Some(1), !.nyct = Nyct(Some(2), Some(TRUE), Some(1))], None,
-                             <<StuN(Some(3), Some(7), None, None)>>)     \* a second assigned trip on the train of the first one
-                       >>, a, b)) : a \in 1..7, b \in 1..7}
+                             <<StuN(Some(3), Some(7), None, None)>>),    \* a second assigned trip on the train of the first one
+                         (* the stale-filtered trip's own vehicle position, and the position of today's assigned run that shares its trip id *)
+                         VPx(Some([NoTD EXCEPT !.id = Some(2064650), !.nyct = Nyct(None, Some(FALSE), Some(1))]), None),
+                         VPx(Some([NoTD EXCEPT !.id = Some(2064650), !.sd = Some([day |-> 2, ok |-> TRUE]), !.nyct = Nyct(Some(1), Some(TRUE), Some(1))]), None)
+                       >>, a, b)) : a \in 1..9, b \in 1..9}
+    \cup (* the stale trip's position before and after its trip update, with today's run *)
+    {M(Some(3), <<VPx(Some([NoTD EXCEPT !.id = Some(2064650), !.nyct = Nyct(None, Some(FALSE), Some(1))]), None),
+                  TUx([NoTD EXCEPT !.id = Some(2064650), !.nyct = Nyct(None, Some(FALSE), Some(1))], None, <<StuN(Some(19), Some(5), None, None)>>),
+                  VPx(Some([NoTD EXCEPT !.id = Some(2064650), !.sd = Some([day |-> 2, ok |-> TRUE]), !.nyct = Nyct(Some(1), Some(TRUE), Some(1))]), None)>>)}
 
+(* F: one entity carrying a trip update and the position of the vehicle serving that trip *)
+PoolFused ==
+    {[ts |-> Some(3), fuse |-> <<<<1, 2>>>>,
+      ents |-> <<TUx(NyTD, vd, <<StuN(Some(3), Some(7), None, None)>>), VPx(Some(NyTD), vd2)>> \o rest]
+       : vd \in {None, Some(VDid(2))}, vd2 \in {None, Some(VDid(2))},
+         rest \in {<<>>, <<TUx([NoTD EXCEPT !.id = Some(2), !.route = Some(1)], Some(VDid(4)), <<StuN(Some(16), Some(5), None, None)>>)>>}}
 Msgs == CASE Pool = "stale" -> PoolStale [] Pool = "desc" -> PoolDesc [] Pool = "swap" -> PoolSwap
           [] Pool = "track" -> PoolTrack [] Pool = "mixed" -> PoolMixed
-          [] Pool = "all" -> PoolStale \cup PoolDesc \cup PoolSwap \cup PoolTrack \cup PoolMixed
+          [] Pool = "fused" -> PoolFused
+          [] Pool = "all" -> PoolStale \cup PoolDesc \cup PoolSwap \cup PoolTrack \cup PoolMixed \cup PoolFused
 
 Init == /\ msg \in Msgs /\ opts \in OptsAll
         /\ i = 1 /\ pre = <<>> /\ dropped = {} /\ pc = "prepass"
